@@ -2809,6 +2809,24 @@ static int upipe_h265f_check_ubuf_mgr(struct upipe *upipe,
     struct upipe_h265f *upipe_h265f = upipe_h265f_from_upipe(upipe);
     if (flow_format == NULL)
         return UBASE_ERR_INVALID;
+
+    /* Frames in NALU or length format are output even before the first
+     * parameter sets, so these are needed with the temporary manager too. */
+    ubuf_free(upipe_h265f->annexb_header);
+    upipe_h265f->annexb_header =
+        upipe_h26xf_alloc_annexb(upipe_h265f->ubuf_mgr);
+
+    ubuf_free(upipe_h265f->annexb_aud);
+    uint8_t aud_buffer[6] = { 0, 0, 0, 1, 0, 1 };
+    h265nal_set_type(aud_buffer + 1, H265NAL_TYPE_AUD);
+    upipe_h265f->annexb_aud =
+        ubuf_block_alloc_from_opaque(upipe_h265f->ubuf_mgr, aud_buffer, 6);
+    if (unlikely(upipe_h265f->annexb_header == NULL ||
+                 upipe_h265f->annexb_aud == NULL)) {
+        uref_free(flow_format);
+        return UBASE_ERR_ALLOC;
+    }
+
     if (upipe_h265f->flow_def_attr == NULL) {
         /* temporary ubuf manager, will be overwritten later */
         uref_free(flow_format);
@@ -2818,17 +2836,6 @@ static int upipe_h265f_check_ubuf_mgr(struct upipe *upipe,
     uref_free(upipe_h265f->flow_def_requested);
     upipe_h265f->flow_def_requested = flow_format;
     upipe_h265f->encaps_output = uref_h26x_flow_infer_encaps(flow_format);
-    ubuf_free(upipe_h265f->annexb_header);
-    upipe_h265f->annexb_header =
-        upipe_h26xf_alloc_annexb(upipe_h265f->ubuf_mgr);
-    UBASE_ALLOC_RETURN(upipe_h265f->annexb_header);
-
-    ubuf_free(upipe_h265f->annexb_aud);
-    uint8_t aud_buffer[6] = { 0, 0, 0, 1, 0, 1 };
-    h265nal_set_type(aud_buffer + 1, H265NAL_TYPE_AUD);
-    upipe_h265f->annexb_aud =
-        ubuf_block_alloc_from_opaque(upipe_h265f->ubuf_mgr, aud_buffer, 6);
-    UBASE_ALLOC_RETURN(upipe_h265f->annexb_aud);
 
     upipe_h265f_build_flow_def(upipe);
 
